@@ -97,6 +97,16 @@ func runC01(c *Ctx) {
 	c01ValueSources(c, ge)
 	c01TaxPairing(c, ge)
 	c01SiafundBound(c, ge)
+	// the scheduled Foundation subsidy: nothing before the hardfork height (the unsigned difference below would
+	// wrap), and only on the month boundaries counted from it
+	fs := "consensus.(State).FoundationSubsidy"
+	sub := []GuardReq{
+		req("foundation-not-before-hardfork", fs, "%CH%", opLT, "%NET%.HardforkFoundation.Height", "no Foundation subsidy exists before the Foundation hardfork height"),
+		req("foundation-month-boundary", fs, "((%CH% - %NET%.HardforkFoundation.Height) % …)", opNE, "const:0", "after the hardfork the subsidy is paid only every blocks-per-month blocks counted from the hardfork height"),
+		req("foundation-void-address", fs, "%ST%.FoundationSubsidyAddress", opEQ, "global types.VoidAddress", "a waived subsidy (void address) is not paid"),
+	}
+	runGuardTable(c, "subsidy-schedule", ge, sub)
+	c.Min("subsidy-schedule", len(sub))
 }
 
 // c01SiafundBound: siafund values are plain uint64s and the balance check adds them with "+": the sums are exact only
